@@ -210,6 +210,6 @@ def cosim(ctx, native):
             if obs != mine:
                 raise RuntimeError("MIR interpreter %r vs native %r for %s bits %d" % (mine, obs, fty, bits))
             if obs != expected(fty, bits):
-                raise RuntimeError("reference oracle %r vs native %r for %s bits %d" % (expected(fty, bits), obs, fty, bits))
+                raise NativeViolation("5 from_%s %d" % (fty, bits), obs, expected(fty, bits))
             n += 1
     return n
